@@ -42,3 +42,36 @@ fn c07_as_range_within_object() {
     }
     kani::cover!(true, "COVER:reach");
 }
+
+/// `EncryptedStore::read_chunk_size` — the chunk size the span arithmetic actually
+/// uses — copied verbatim (every run) into a view struct holding the one field it
+/// reads besides the metadata. With a store configured with chunk_size >= 1
+/// (`with_chunk_size` normalises, see the builder) the result is >= 1 for EVERY
+/// metadata value, including a tampered `chunk_size: Some(0)`: the precondition
+/// `chunk_size >= 1` of C07.span / C09.span.
+pub(super) struct VerifChunkView {
+    chunk_size: u64,
+}
+
+#[allow(dead_code)]
+impl VerifChunkView {
+/*@EXTRACT:read_chunk_size@*/
+}
+
+pub(super) struct Metadata {
+    pub chunk_size: Option<u64>,
+}
+
+#[kani::proof]
+#[kani::unwind(2)]
+fn c07_read_chunk_size_positive() {
+    let configured: u64 = kani::any();
+    kani::assume(configured >= 1);
+    let v = VerifChunkView { chunk_size: configured };
+    let m = Metadata { chunk_size: kani::any() };
+    let r = v.read_chunk_size(&m);
+    assert!(r >= 1, "OBL:C07.chunk.read_chunk_size_positive");
+    assert!(r == match m.chunk_size { Some(c) if c >= 1 && c <= usize::MAX as u64 => c, Some(c) if c > usize::MAX as u64 => usize::MAX as u64, _ => configured }, "OBL:C07.chunk.read_chunk_size_prefers_the_recorded_size");
+    kani::cover!(m.chunk_size == Some(0), "COVER:zero_recorded");
+    kani::cover!(true, "COVER:reach");
+}
